@@ -10,8 +10,12 @@ from productmd.rpms import Rpms
 from productmd.treeinfo import TreeInfo
 from productmd.common import SortedConfigParser, RELEASE_TYPES
 import domains
+import C10
 
 PROPERTY = "C05"
+
+# rpms <= 0.3 ('manifest' payload with a src arch): the conversion harness is shared with C10
+rpms_03 = C10.rpms_old_src
 
 REPO = os.path.dirname(os.path.dirname(os.path.abspath(ComposeInfo.__module__ and __import__("productmd").__file__)))
 PATH_FIELDS = ["os_tree", "packages", "repository", "isos", "images", "jigdos", "source_tree", "source_packages",
@@ -433,6 +437,8 @@ def jobs(tier, seed):
         for wf in (True, False):
             out.append({"harness": "images_old", "params": {"with_subvariant": ws, "with_format": wf}})
     out.append({"harness": "rpms_10", "params": {}})
+    for lay in C10.LAYOUTS:
+        out.append({"harness": "rpms_03", "params": {"layout": lay}})
     for layout in ("0.3", "1.x"):
         for arch in ("x86_64", "src"):
             for layered in (False, True):
@@ -453,11 +459,12 @@ def jobs(tier, seed):
 
 META = {
     "fp_lemma": True,
-    "expected_covers": {"composeinfo_old": ["loaded", "rewritten"], "images_old": ["loaded", "rewritten"], "rpms_10": ["loaded"],
+    "expected_covers": {"composeinfo_old": ["loaded", "rewritten"], "images_old": ["loaded", "rewritten"], "rpms_10": ["loaded"], "rpms_03": ["loaded", "rewritten"],
                         "treeinfo_old": ["loaded", "rewritten"], "treeinfo_00": ["loaded", "rewritten"], "fixture_idempotent": ["loaded"]},
     "assumptions": [
         "old documents are built by a down-converter in the harness (the documented mapping, written independently of the readers) with symbolic leaves; "
         "the header version is a symbolic integer pair constrained to the range in which the layout is valid, so every version gate is decided for all version numbers",
+        "rpms <= 0.3: the layouts of C10 (1-2 variants, 1-3 binary arches that share source packages, src table present/absent), header 0.0-0.3 symbolic, every leaf symbolic",
         "composeinfo < 0.3: date/type/respin exist only inside the id (symbolic 8-digit date, respin 0..9999, every type suffix); variants related only by UID prefix (depth 2)",
         "pre-productmd treeinfo: the documented [general] mapping only; product-specific heuristics (names starting with 'Red Hat Enterprise Linux', 'Fedora', 'CentOS', ...; RHEL 3-6 conventions) "
         "are exercised by the shipped fixtures only",
